@@ -174,6 +174,17 @@ func coqSb(version byte, rp *super_block.ReplicaPlacement, t *needle.TTL, comp u
 	return fmt.Sprintf("{| sb_version := %d; sb_rp := %s; sb_ttl := %s; sb_compaction := %d; sb_extra := %s |}",
 		version, coqRp(rp), coqTtl(t), comp, pk(extra))
 }
+// pbOracle is the protobuf oracle of the model: Marshal(Unmarshal(b)), None on error.
+func pbOracle(b []byte) string {
+	m := &master_pb.SuperBlockExtra{}
+	if err := proto.Unmarshal(b, m); err != nil {
+		return "None"
+	}
+	out, err := proto.Marshal(m)
+	hx.Must(err)
+	return "(Some " + pk(out) + ")"
+}
+
 func readSb(file []byte) string {
 	tmp, err := os.CreateTemp("", "c08-*.dat")
 	hx.Must(err)
@@ -205,14 +216,22 @@ func sbEnc(version byte, dc, rack, same int, c, u byte, comp uint16, extra *mast
 			hx.Must(err)
 		}
 		b := sb.Bytes()
-		return fmt.Sprintf("KSb %s %s %d %s", coqSb(version, rp, t, comp, ex), pk(b), sb.BlockSize(), readSb(b)),
+		return fmt.Sprintf("KSb %s %s %d %s %s", coqSb(version, rp, t, comp, ex), pk(b), sb.BlockSize(), pbOracle(ex), readSb(b)),
 			fmt.Sprintf("sb:%d.%d%d%d.%d.%d.%d.%x", version, dc, rack, same, c, u, comp, ex), true
 	}}
 }
 func sbRead(file []byte) gen {
 	return gen{"super-block-read", func() (string, string, bool) {
 		r := readSb(file)
-		return fmt.Sprintf("KSbRead %s %s", pk(file), r), fmt.Sprintf("sbr:%x", file), r != "None"
+		var cand []byte
+		if len(file) >= 8 {
+			end := 8 + int(file[6])<<8 + int(file[7])
+			if end > len(file) {
+				end = len(file)
+			}
+			cand = file[8:end]
+		}
+		return fmt.Sprintf("KSbRead %s %s %s %s", pk(file), pk(cand), pbOracle(cand), r), fmt.Sprintf("sbr:%x", file), r != "None"
 	}}
 }
 func offNum(o types.Offset) uint32 {
@@ -327,7 +346,9 @@ func enumerated() []gen {
 		e = append(e, sbEnc(v, 0, 1, 2, 15, 3, 7, ec, "-extra"), sbEnc(v, 0, 0, 0, 0, 0, 0, &master_pb.SuperBlockExtra{}, "-empty-extra"), sbEnc(v, 2, 2, 2, 3, 2, 9, big, "-extra"))
 	}
 	for _, f := range [][]byte{{}, {3}, {3, 0, 0, 0, 0, 0, 0}, {3, 0, 0, 0, 0, 0, 0, 0}, {3, 3, 0, 0, 0, 0, 0, 0}, {3, 222, 1, 2, 3, 4, 0, 0}, {3, 223, 0, 0, 0, 0, 0, 0},
-		{3, 1, 0, 0, 0, 0, 0, 1, 0}, {3, 1, 0, 0, 0, 0, 0, 2, 8, 1}, {3, 1, 0, 0, 0, 0, 1, 0}, {0, 12, 9, 9, 255, 255, 0, 0, 1, 2, 3}, {255, 255, 255, 255, 255, 255, 255, 255}} {
+		{3, 1, 0, 0, 0, 0, 0, 1, 0}, {3, 1, 0, 0, 0, 0, 0, 2, 8, 1}, {3, 12, 15, 3, 0, 7, 0, 11, 10, 9, 8, 10, 16, 4, 26, 3, 1, 2, 3},
+		{3, 12, 15, 3, 0, 7, 0, 11, 10, 9, 8, 10, 16, 4, 26, 3, 1, 2, 3, 0, 0, 0, 0, 0}, {3, 12, 15, 3, 0, 7, 0, 11, 10, 9, 8, 10, 16, 4, 26, 3, 1, 2},
+		{3, 12, 15, 3, 0, 7, 0, 11}, {3, 1, 0, 0, 0, 0, 0, 2, 255, 255}, {3, 1, 0, 0, 0, 0, 0, 4, 10, 2, 8, 10}, {3, 1, 0, 0, 0, 0, 1, 0}, {0, 12, 9, 9, 255, 255, 0, 0, 1, 2, 3}, {255, 255, 255, 255, 255, 255, 255, 255}} {
 		e = append(e, sbRead(f))
 	}
 	for _, k := range []uint64{0, 1, 0xffffffff, 0x100000000, 0xffffffffffffffff} {
@@ -388,7 +409,7 @@ func randomGen(r *hx.Rng) gen {
 
 func main() {
 	out := hx.Flags("C08", 250)
-	out.Rule = "shard k (seed mod 1000) takes the k-th slice (4/5 of its cases) of a fixed enumeration, cyclically: all 27 replica placements and some invalid ones, all 256 placement bytes, every string over {0,1,2,3} of length 0..4 plus malformed strings, all TTL (count 0..255, unit 0..7) pairs plus odd units, TTL strings built from boundary counts x units plus malformed ones, volume id strings around 2^32 and 2^64, boundary file ids (keys with 0..8 leading zero bytes x boundary cookies), malformed file ids and ParsePath inputs (with _delta), super blocks (versions 1..3, with/without extra) and raw headers, index entries and offsets at boundaries; the remaining 1/5 are random file ids, paths, TTL strings, volume ids, index entries and headers; the first two cases of every shard are the witnesses of the two known findings; non-trivial = an accepted decode / an encodable value; distinct = kind + input"
+	out.Rule = "shard k (seed mod 1000) takes the k-th slice (4/5 of its cases) of a fixed enumeration, cyclically: all 27 replica placements and some invalid ones, all 256 placement bytes, every string over {0,1,2,3} of length 0..4 plus malformed strings, all TTL (count 0..255, unit 0..7) pairs plus odd units, TTL strings built from boundary counts x units plus malformed ones, volume id strings around 2^32 and 2^64, boundary file ids (keys with 0..8 leading zero bytes x boundary cookies), malformed file ids and ParsePath inputs (with _delta), super blocks (versions 1..3, with/without extra) and raw headers, index entries and offsets at boundaries; the remaining 1/5 are random file ids, paths, TTL strings, volume ids, index entries and headers; the first two cases of every shard are the witnesses of two repaired defects (super block with extra metadata; replica placement string \"1\"); non-trivial = an accepted decode / an encodable value; distinct = kind + input"
 	all := enumerated()
 	out.Extra["enumerated"] = len(all)
 	root := hx.NewRng(out.Seed)
@@ -400,9 +421,9 @@ func main() {
 		var g gen
 		switch {
 		case i == 0:
-			g = sbEnc(3, 0, 1, 2, 15, 3, 7, ec, "-extra") // known finding 0
+			g = sbEnc(3, 0, 1, 2, 15, 3, 7, ec, "-extra") // repaired: extra is read back
 		case i == 1:
-			g = rpStr("1") // known finding 1
+			g = rpStr("1") // repaired: rejected
 		case i < slice:
 			g = all[(shard*(slice-2)+(i-2))%len(all)]
 		default:
